@@ -11,7 +11,7 @@ use ntex_mqtt::v3::{self, client, codec};
 use ntex_mqtt::{Control, MqttServiceConfig, Reason};
 use ntex_util::time::Seconds;
 
-use super::v5::{BoxFut, Receipt, SendErr, SendKind, SendRes, SendSpec, send_err};
+use super::v5::{BoxFut, Receipt, SendErr, SendKind, SendRes, SendSpec, StreamFn, send_err};
 use super::*;
 use crate::conv;
 use crate::spec::v3 as s3;
@@ -108,6 +108,7 @@ pub struct Eut3 {
     pub done: Rc<Done>,
     pub sink: Rc<RefCell<Option<v3::MqttSink>>>,
     pub receipts: Rc<RefCell<Vec<Option<Receipt>>>>,
+    pub streams: Rc<RefCell<Vec<Option<StreamFn>>>>,
 }
 
 fn stop_kind(r: &Reason<AppErr>) -> StopKind {
@@ -336,7 +337,7 @@ pub fn enc_pub(p: &s3::Publish3, payload: &[u8]) -> Vec<u8> {
 
 impl Eut3 {
     fn new(role: Role, peer: Peer, app: Rc<App>) -> Self {
-        Eut3 { role, peer, app, done: Rc::new(Done::default()), sink: Rc::new(RefCell::new(None)), receipts: Rc::new(RefCell::new(Vec::new())) }
+        Eut3 { role, peer, app, done: Rc::new(Done::default()), sink: Rc::new(RefCell::new(None)), receipts: Rc::new(RefCell::new(Vec::new())), streams: Rc::new(RefCell::new(Vec::new())) }
     }
 
     pub fn attach_server(pipeline: &SrvPipeline, app: Rc<App>, cfg: &Cfg3) -> Eut3 {
@@ -562,6 +563,64 @@ impl Eut3 {
                 })
             }
             SendKind::Ready => Box::pin(async move { SendRes::Ready(sink.ready().await) }),
+        }
+    }
+
+    /// start a streamed publish (QoS 0 or 1): the awaiting future (QoS 1) and the index of the stream handle
+    pub fn stream_start(&self, qos: u8, topic: String, declared: u32, pid: Option<u16>) -> (Option<BoxFut<SendRes>>, Result<usize, SendErr>) {
+        let Some(sink) = self.sink() else {
+            return (None, Err(SendErr::Disconnected));
+        };
+        let mut b = sink.publish(ByteString::from(topic));
+        if let Some(id) = pid {
+            b = b.packet_id(id);
+        }
+        let keep = |f: StreamFn| -> usize {
+            let mut v = self.streams.borrow_mut();
+            v.push(Some(f));
+            v.len() - 1
+        };
+        macro_rules! erase {
+            ($stream:expr) => {{
+                let st = Rc::new($stream);
+                let f: StreamFn = Rc::new(move |chunk: Vec<u8>| {
+                    let st = st.clone();
+                    Box::pin(async move { st.send(Bytes::from(chunk)).await.map_err(send_err) }) as BoxFut<_>
+                });
+                f
+            }};
+        }
+        if qos == 0 {
+            match b.stream_at_most_once(declared) {
+                Ok(stream) => (None, Ok(keep(erase!(stream)))),
+                Err(e) => (None, Err(send_err(e))),
+            }
+        } else {
+            let (fut, stream) = b.stream_at_least_once(declared);
+            let idx = keep(erase!(stream));
+            let fut: BoxFut<SendRes> = Box::pin(async move {
+                match fut.await {
+                    Ok(()) => SendRes::PubAck(s5::Ack5::default()),
+                    Err(e) => SendRes::Err(send_err(e)),
+                }
+            });
+            (Some(fut), Ok(idx))
+        }
+    }
+
+    /// `StreamingPayload::send(chunk)` (created, not polled)
+    pub fn stream_chunk(&self, idx: usize, chunk: Vec<u8>) -> BoxFut<Result<(), SendErr>> {
+        let f = self.streams.borrow().get(idx).and_then(Clone::clone);
+        match f {
+            Some(f) => f(chunk),
+            None => Box::pin(async { Err(SendErr::StreamingCancelled) }),
+        }
+    }
+
+    /// drop the `StreamingPayload` (chunk futures still alive keep it alive)
+    pub fn stream_drop(&self, idx: usize) {
+        if let Some(slot) = self.streams.borrow_mut().get_mut(idx) {
+            slot.take();
         }
     }
 
